@@ -384,4 +384,45 @@ def suite_two_clients(ctx):
     return s
 
 
-SUITES = [suite_hist, suite_shape, suite_ctx, suite_direct, suite_two_clients]
+def suite_send_fault(ctx):
+    """the transport fails while (or right after) it puts the frame on the wire - `specific_send` raises, with either of the two signatures the library supports
+    (with and without a `timeout` parameter): the frame was handed to the transport exactly once, nothing is retransmitted, the exception reaches the caller"""
+    from .. import clientlib as cl
+    s = Suite('send_fault')
+    excs = [TypeError('listener called with the wrong arity'), OSError('bus off'), ValueError('bad frame'), RuntimeError('driver'), TimeoutError('tx timeout')]
+    for modern in (True, False):
+        for when in ('after', 'before'):
+            for exc in excs:
+                for entry in ('tester_present', 'ecu_reset', 'read_data_by_identifier', 'unlock_security_access'):
+                    client, conn = cl.make_client(cl.Cfg(rt=50, p2=20, p2s=20), extra={'security_algo': lambda seed, level, params: b'\x01', 'data_identifiers': {0x1234: 'H'}})
+                    sent = []
+                    if modern:
+                        def specific_send(payload, timeout=None, sent=sent, exc=exc, when=when):
+                            if when == 'after':
+                                sent.append(bytes(payload))
+                            raise exc
+                    else:
+                        def specific_send(payload, sent=sent, exc=exc, when=when):
+                            if when == 'after':
+                                sent.append(bytes(payload))
+                            raise exc
+                    conn.specific_send = specific_send
+                    call = {'tester_present': lambda: client.tester_present(), 'ecu_reset': lambda: client.ecu_reset(1),
+                            'read_data_by_identifier': lambda: client.read_data_by_identifier([0x1234]), 'unlock_security_access': lambda: client.unlock_security_access(1)}[entry]
+                    got = None
+                    try:
+                        call()
+                    except Exception as e:  # noqa
+                        got = e
+                    s.evaluations += 1
+                    s.distinct.add('%s|%s|%s|%s' % (modern, when, type(exc).__name__, entry))
+                    rec = {'site': 'BaseConnection.send', 'input': '%s; specific_send(%s) raises %s %s transmitting' % (entry, 'payload, timeout' if modern else 'payload', type(exc).__name__, when)}
+                    if len(sent) > 1:
+                        s.fail(dict(rec, observed='frame handed to the transport %d times: %s' % (len(sent), [x.hex() for x in sent]), required='once'))
+                    elif got is not exc:
+                        s.fail(dict(rec, observed=repr(got), required='the transport\'s %s reaches the caller' % type(exc).__name__))
+    s.exhaustive = True
+    return s
+
+
+SUITES = [suite_hist, suite_shape, suite_ctx, suite_direct, suite_two_clients, suite_send_fault]
